@@ -86,6 +86,20 @@ def check(run):
                   "sip:0", "rq:0", "rq:0", "w:0"])
     cases.append(["new:0", "st:0:7", "new:1", "cp:0:1:ca", "gs:0", "new:2", "st:2:3", "cp:3:2:cc", "gs:3", "cp:3:1:ma", "gs:3", "w:3", "w:1"])
     cases.append(["new:0", "ia:0:1", "ia:0:2", "ia:0:2", "iq:0:6", "cp:1:0:mc", "cp:2:1:cc", "RA:1", "del:1", "RA:2", "RA:2", "rq:2", "w:2", "w:0"])
+    # tables as the reader fills them from another writer's file (equal entries kept apart), copied: every value - the ones stored
+    # behind a repeated entry in particular - keeps the index it has in the source, in copies of copies too
+    for T_ in ("ip", "nr", "ct"):
+        vals = {"ip": ["x0a", "x0b", "x0c", "x0d"], "nr": ["x01", "x02", "x03", "x04"], "ct": ["1.1", "2.2", "3.3", "4.4"]}[T_]
+        for dup_at in (0, 1, 2):
+            toks = ["new:0"]
+            for j, v in enumerate(vals):
+                toks.append("v%s:0:%s" % (T_, v))
+                if j == dup_at:
+                    toks.append("v%s:0:%s" % (T_, v))            # the same value once more
+            toks += ["cp:1:0:cc", "new:2", "cp:2:0:ca", "cp:3:1:cc"]
+            for b in (0, 1, 2, 3):
+                toks += ["a%s:%d:%s" % (T_, b, v) for v in vals] + ["a%s:%d:%s" % (T_, b, vals[-1])] + ["g%s:%d:%d" % (T_, b, j) for j in range(5)] + ["s%s:%d" % (T_, b)]
+            cases.append(toks)
     compare(run, cases, seen, "copy")
     # "including the blocks returned by the reader": every block of a file read into / assigned to ONE block object must give the
     # records a fresh object gives (differing table contents under equal indices in consecutive blocks, cursors, cached look-ups)
